@@ -106,7 +106,7 @@ def accGroup (root : Node) (p : Path) (c : Cls) (ks : List Node) : List String :
     out := out ++ ["ids=" ++ accList ((getIdentifiers up ks).map fun x => abs [x.1])]
   | .Function =>
     out := out ++ ["par=" ++ accExc (fun l => accList (l.map fun x => abs x.1)) (getParameters up ks)]
-    out := out ++ ["win=" ++ accExc (fun x => abs x.1) (getWindow up ks)]
+    out := out ++ ["win=" ++ accExc (fun x => match x with | none => "N" | some y => abs y.1) (getWindow up ks)]
   | .Case =>
     out := out ++ ["cs0=" ++ accExc (fun l => accList (l.map (accCase p))) (getCases up ks false)]
     out := out ++ ["cs1=" ++ accExc (fun l => accList (l.map (accCase p))) (getCases up ks true)]
